@@ -71,6 +71,8 @@ pub enum Outcome {
     Panic { stage: &'static str, message: String, location: String },
     /// instruction budget exhausted
     Budget,
+    /// killed at a crash point of the fault plan (nothing ran afterwards)
+    Killed,
 }
 
 impl Outcome {
@@ -91,6 +93,7 @@ impl Outcome {
                 location,
             } => format!("PANIC in {} at {}: {}", stage, location, message),
             Outcome::Budget => "budget exhausted".into(),
+            Outcome::Killed => "killed".into(),
         }
     }
 }
@@ -254,6 +257,15 @@ pub fn run_program(program: &Program, world: &Shared, budget: u64) -> RunResult 
                         *stopped.borrow_mut() = true;
                         return VmControl::Stop;
                     }
+                    if w.kill_at == Some(w.instr) {
+                        // crash point: the store survives as it is now; whatever the
+                        // process would still do while shutting down is discarded
+                        w.killed = true;
+                        w.fs_at_kill = Some(w.fs.clone());
+                        w.push_event(EventKind::Killed);
+                        *stopped.borrow_mut() = true;
+                        return VmControl::Stop;
+                    }
                     // attribution
                     let (row, col) = (pos.row(), pos.col());
                     // every instruction must carry a position inside the code of some
@@ -353,10 +365,22 @@ pub fn run_program(program: &Program, world: &Shared, budget: u64) -> RunResult 
     // dropping the interpreter closes the files (handles die with the run)
     let drop_result = catch_unwind(AssertUnwindSafe(move || drop(interpreter)));
     verif_fs::install(prev);
+    let killed = {
+        let mut w = world.borrow_mut();
+        if let Some(fs) = w.fs_at_kill.take() {
+            if fs.snapshot() != w.fs.snapshot() {
+                w.writes_after_kill_discarded = true;
+            }
+            w.fs = fs;
+        }
+        w.killed
+    };
 
     let outcome = match result {
         Ok(Ok(())) => {
-            if *stopped.borrow() {
+            if killed {
+                Outcome::Killed
+            } else if *stopped.borrow() {
                 Outcome::Budget
             } else {
                 Outcome::Ok
